@@ -592,7 +592,8 @@ def normalize_path(path: bytes) -> tuple[bytes, str]:
         if segment == b".":
             pass
         elif segment == b"..":
-            if dotless:
+            # never remove the empty first segment of an absolute path: "/../a" is "/a", not "a"
+            if len(dotless) > 1 or (dotless and dotless[0] != b""):
                 dotless.pop()
         else:
             dotless.append(segment)
